@@ -1,0 +1,41 @@
+//go:build verif
+
+package multicidrset
+
+import (
+	"net"
+	"sort"
+)
+
+// Verification hooks (build tag verif): read-only access to unexported mapping
+// functions and pool state. Nothing here is compiled into a normal build.
+
+// VerifIndexToCIDRBlock exposes indexToCIDRBlock.
+func (s *MultiCIDRSet) VerifIndexToCIDRBlock(index int) (*net.IPNet, error) {
+	return s.indexToCIDRBlock(index)
+}
+
+// VerifGetIndexForIP exposes getIndexForIP.
+func (s *MultiCIDRSet) VerifGetIndexForIP(ip net.IP) (int, error) {
+	return s.getIndexForIP(ip)
+}
+
+// VerifBeginEnd exposes getBeginningAndEndIndices.
+func (s *MultiCIDRSet) VerifBeginEnd(cidr *net.IPNet) (int, int, error) {
+	return s.getBeginningAndEndIndices(cidr)
+}
+
+// VerifSnapshot returns the counter, the cursor and the sorted keys of the used map.
+func (s *MultiCIDRSet) VerifSnapshot() (allocated int, next int, keys []string) {
+	s.Lock()
+	defer s.Unlock()
+	keys = make([]string, 0, len(s.AllocatedCIDRMap))
+	for k := range s.AllocatedCIDRMap {
+		keys = append(keys, k)
+	}
+	sort.Strings(keys)
+	return s.allocatedCIDRs, s.nextCandidate, keys
+}
+
+// VerifClusterMaskSize exposes clusterMaskSize.
+func (s *MultiCIDRSet) VerifClusterMaskSize() int { return s.clusterMaskSize }
